@@ -36,7 +36,7 @@ theorem sumR_split (f : Nat → Nat) (i : Nat) : ∀ (n : Nat), i < n →
     · subst hi
       have : sumR (fun j => if j = i then 0 else f j) i = sumR f i :=
         sumR_congr i (fun j hj => by simp [show j ≠ i by omega])
-      rw [this]; omega
+      rw [this]; simp only [if_true]; omega
     · rw [sumR_split f i n (by omega)]
       simp [show n ≠ i by omega]
       omega
